@@ -18,6 +18,15 @@ package main
 //                            passes (preferenceList, clientHello.cipherSuites) in this order
 //   negPrefListFromOrder     pickCipherSuite builds preferenceList by walking
 //                            cipherSuitesPreferenceOrder and keeping configured ids
+//                            — negSelectServerFirst, negPrefListFromOrder, negResumePolicyGuards and
+//                            negResumeSuiteGuards are INFORMATIONAL since the translation tie of the `sel`
+//                            group: selectCipherSuite, mutualCipherSuite, Config.cipherSuites,
+//                            serverHandshakeState.cipherSuiteOk / pickCipherSuite / checkForResumption are
+//                            translated to Lean on every run and lean/Gotlcp/Tie/Select.lean,
+//                            Tie/ResumeDecision.lean prove the translated text equal to the model with the
+//                            literals Model.Negotiate.treePref / treeDisabled / treeServerPrefFirst /
+//                            treeResumePolicyGuards / treeResumeSuiteGuards: not used by the model, not
+//                            pinned by C01_facts (booleans: never "missing")
 //   negHelloFromOrder        makeClientHello walks cipherSuitesPreferenceOrder and keeps
 //                            configured ids (mutualCipherSuite(configCipherSuites, suiteId))
 //   negHelloEcdheGuard       … and skips the ids of negEcdheIds unless hasAuthKeyPair && hasEncKeyPair
